@@ -1,5 +1,5 @@
-(* C12: the members of an archive are exactly the files its node-states refer to, for every value that dumps and
-   has no rank-0 object array.  Two keys of a dict with the same JSON spelling make dict_get_state raise (the
+(* C12: the members of an archive are exactly the files its node-states refer to, for every value that dumps (object
+   arrays of every rank included: C13-F1 repaired).  Two keys of a dict with the same JSON spelling make dict_get_state raise (the
    repair of D08), a key json cannot write makes json.dumps(state) raise in _save (d_late): both are refusals,
    so the former no-collision guard is gone. *)
 From Skv Require Import PyStrFacts CodecWf CodecWfFacts PyValInd CodecNameFacts.
@@ -52,15 +52,14 @@ Proof. unfold set_late. cbn [d_late]. destruct (d_late st); discriminate. Qed.
 Section Refs.
   Variable E : denv.
   Definition Mx (v : pval) : Prop :=
-    no_rank0 v = true ->
     forall st j st', get_state E v st = Ok (j, st') -> RX st (file_refs j) st'.
 
-  Lemma states_refs l : Forall Mx l -> forallb no_rank0 l = true ->
+  Lemma states_refs l : Forall Mx l ->
     forall st js st', states_of (fun x s0 => get_state E x s0) l st = Ok (js, st') -> RX st (flat_map file_refs js) st'.
   Proof.
-    induction 1 as [|x l Hx Hl IH]; intros Hr st js st' H; cbn [states_of] in H.
+    induction 1 as [|x l Hx Hl IH]; intros st js st' H; cbn [states_of] in H.
     - injection H as <- <-. apply RX_of_NX; [reflexivity|apply NX_nil].
-    - cbn [forallb] in Hr. apply andb_prop in Hr. destruct Hr. inv_bind H. cbn [flat_map].
+    - inv_bind H. cbn [flat_map].
       eapply RX_trans; [eapply Hx; eauto|eapply IH; eauto].
   Qed.
 
@@ -82,53 +81,45 @@ Section Refs.
   (* every entry written stays in `content` (no later key replaces it), so the references of the values' states are
      exactly the references of the content; a key json refuses sets the deferred error: excluded by d_late st' = None *)
   Lemma content_refs l : Forall (fun kv => Mx (snd kv)) l ->
-    forallb (fun kv => no_rank0 (snd kv)) l = true ->
     forall acc st cont st',
       content_of (fun x s0 => get_state E x s0) l acc st = Ok (cont, st') -> d_late st' = None ->
       d_late st = None /\ exists refs, flat_map frf cont = flat_map frf acc ++ refs /\ NX st refs st'.
   Proof.
-    induction 1 as [|[k x] l Hx Hl IH]; intros Hr acc st cont st' H Hlate; cbn [content_of] in H.
+    induction 1 as [|[k x] l Hx Hl IH]; intros acc st cont st' H Hlate; cbn [content_of] in H.
     - injection H as <- <-. split; [exact Hlate|]. exists []. split; [rewrite app_nil_r; reflexivity|apply NX_nil].
-    - cbn [forallb snd] in Hr. apply andb_prop in Hr. destruct Hr as [Hr1 Hr2].
-      destruct (is_prop x) eqn:Hp; [eapply IH; eauto|].
+    - destruct (is_prop x) eqn:Hp; [eapply IH; eauto|].
       destruct (key_collides k acc) eqn:Hkc; [discriminate|].
       destruct (get_state E x st) as [[j st1]|] eqn:Ex; [|discriminate]. cbn [bind] in H.
       destruct (k_val k) as [sc|] eqn:Ek.
       + rewrite (no_collision_fresh k sc j acc Ek Hkc) in H.
-        destruct (IH Hr2 (acc ++ [(key_text sc, j)]) st1 cont st' H Hlate) as [L1 [refs [Hf Hn]]].
-        destruct (Hx Hr1 _ _ _ Ex L1) as [L0 N0]. split; [exact L0|].
+        destruct (IH (acc ++ [(key_text sc, j)]) st1 cont st' H Hlate) as [L1 [refs [Hf Hn]]].
+        destruct (Hx _ _ _ Ex L1) as [L0 N0]. split; [exact L0|].
         destruct (root_fields _ _ _ _ _ Ex) as [kv [Hj _]].
         exists (file_refs j ++ refs). split.
         * rewrite Hf, flat_map_app. cbn [flat_map]. rewrite (frf_state _ j (ex_intro _ kv Hj)), app_nil_r, <- app_assoc. reflexivity.
         * eapply NX_trans; [exact N0|exact Hn].
-      + destruct (IH Hr2 acc (set_late EType st1) cont st' H Hlate) as [L1 _]. destruct (set_late_some _ _ L1).
+      + destruct (IH acc (set_late EType st1) cont st' H Hlate) as [L1 _]. destruct (set_late_some _ _ L1).
   Qed.
 
   Definition Mcx (c : clo) : Prop := forall st j st', c st = Ok (j, st') -> RX st (file_refs j) st'.
   Lemma list_state_refs items lid : file_refs (list_state items lid) = flat_map file_refs items.
   Proof. unfold list_state. rewrite file_refs_state. cbn [flat_map]. rewrite frf_nofile by reflexivity. rewrite file_refs_arr, app_nil_r. reflexivity. Qed.
 
-  Lemma tolist_refs : forall dims cs st j cs' st', Forall Mcx cs -> tolist_state dims cs st = Ok (j, cs', st') ->
-    RX st (file_refs j) st' /\ Forall Mcx cs'.
+  Lemma run_all_refs cs : Forall Mcx cs -> forall st js st', run_all cs st = Ok (js, st') -> RX st (flat_map file_refs js) st'.
   Proof.
-    induction dims as [|d dims IH]; intros cs st j cs' st' Hcs H; cbn [tolist_state] in H.
-    - destruct cs as [|c cs]; [discriminate|]. inv_bind H. inversion Hcs; subst. split; [eauto|assumption].
-    - destruct (fresh st) as [lid st0] eqn:Hf.
+    induction 1 as [|c cs Hc Hcs IH]; intros st js st' H; cbn [run_all] in H.
+    - injection H as <- <-. apply RX_of_NX; [reflexivity|apply NX_nil].
+    - inv_bind H. cbn [flat_map]. eapply RX_trans; [eapply Hc; eauto|eapply IH; eauto].
+  Qed.
+  Lemma content_refs_clos dims cs : Forall Mcx cs -> Forall Mcx (content_clos dims cs).
+  Proof.
+    apply content_clos_ind.
+    - intros st j st' H. discriminate H.
+    - intros cs0 Hcs st j st' H. unfold list_clo in H. destruct (fresh st) as [lid st0] eqn:Hf.
       assert (Hn0 : names st0 = names st /\ d_late st0 = d_late st) by (unfold fresh in Hf; injection Hf as <- <-; split; reflexivity).
       destruct Hn0 as [Hn0 Hl0].
-      match type of H with context [(fix rep (n : nat) (cs : list clo) (st : dst) {struct n} := _)] =>
-        set (rep := (fix rep (n : nat) (cs : list clo) (st : dst) {struct n} : res (list json * list clo * dst) := _)) in H end.
-      assert (Hrep : forall n cs st js cs' st', Forall Mcx cs -> rep n cs st = Ok (js, cs', st') ->
-                RX st (flat_map file_refs js) st' /\ Forall Mcx cs').
-      { induction n as [|n IHn]; intros cs1 st1 js cs1' st1' Hc Hr; cbn in Hr.
-        - injection Hr as <- <- <-. split; [apply RX_of_NX; [reflexivity|apply NX_nil]|assumption].
-        - destruct (tolist_state dims cs1 st1) as [[[j1 cs2] st2]|] eqn:E1; [|discriminate]. cbn [bind] in Hr.
-          destruct (rep n cs2 st2) as [[[js2 cs3] st3]|] eqn:E2; [|discriminate]. cbn [bind] in Hr.
-          injection Hr as <- <- <-. destruct (IH _ _ _ _ _ Hc E1) as [Hn1 Hc2]. destruct (IHn _ _ _ _ _ Hc2 E2) as [Hn2 Hc3].
-          split; [cbn [flat_map]; eapply RX_trans; eauto|exact Hc3]. }
-      destruct (rep d cs st0) as [[[items cs1] st1]|] eqn:E1; [|discriminate]. cbn [bind] in H.
-      injection H as <- <- <-. destruct (Hrep _ _ _ _ _ _ Hcs E1) as [Hn1 Hc1]. split; [|exact Hc1].
-      rewrite list_state_refs. eapply RX_pre; [exact Hn0|exact Hl0|exact Hn1].
+      destruct (run_all cs0 st0) as [[items st1]|] eqn:E1; [|discriminate H]. cbn [bind] in H. injection H as <- <-.
+      rewrite list_state_refs. eapply RX_pre; [exact Hn0|exact Hl0|]. eapply run_all_refs; eassumption.
   Qed.
 
   Lemma kts_refs ks : forall kts, key_type_states E ks = Ok kts -> flat_map file_refs kts = [].
@@ -163,7 +154,7 @@ Section Refs.
   Theorem get_state_refs : forall v, Mx v.
   Proof.
     apply (pval_ind' Mx).
-    - intros v Hl _ st j st' H. destruct v; try discriminate Hl; cbn [get_state] in H.
+    - intros v Hl st j st' H. destruct v; try discriminate Hl; cbn [get_state] in H.
       + injection H as <- <-. refs. same.
       + injection H as <- <-. refs. same.
       + destruct (fresh_uuid st) as [u st1] eqn:Hf. injection H as <- <-.
@@ -196,70 +187,67 @@ Section Refs.
       + injection H as <- <-. refs. same.
       + injection H as <- <-. unfold type_state. refs. same.
       + discriminate.
-    - intros q id m c nt l IH Hr st j st' H. cbn [get_state] in H. cbn [no_rank0] in Hr.
-      rewrite no_rank0_all in Hr. inv_bind H.
+    - intros q id m c nt l IH st j st' H. cbn [get_state] in H. inv_bind H.
       destruct q; refs; rewrite file_refs_arr; eapply states_refs; eauto.
-    - intros id m c l IH Hr st j st' H. cbn [get_state] in H. cbn [no_rank0] in Hr.
-      rewrite no_rank0_vals in Hr.
+    - intros id m c l IH st j st' H. cbn [get_state] in H.
       destruct (fresh st) as [ktid st0] eqn:Hf. inv_bind H.
       assert (Hn : names st0 = names st /\ d_late st0 = d_late st) by (unfold fresh in Hf; injection Hf as <- <-; split; reflexivity).
       destruct Hn as [Hn Hl0]. intros Hlate.
-      destruct (content_refs l IH Hr [] st0 _ _ E1 Hlate) as [L0 [refs0 [Hfr Hnx]]]. split; [rewrite <- Hl0; exact L0|].
+      destruct (content_refs l IH [] st0 _ _ E1 Hlate) as [L0 [refs0 [Hfr Hnx]]]. split; [rewrite <- Hl0; exact L0|].
       unfold dict_state. refs. rewrite Hfr. cbn [flat_map app]. unfold list_state. rewrite file_refs_state. cbn [flat_map].
       rewrite frf_nofile by reflexivity. rewrite file_refs_arr, (kts_refs _ _ E0). cbn [app]. rewrite app_nil_r.
       intros n. rewrite (Hnx n), Hn. tauto.
-    - intros id m c f l IHf IH Hr st j st' H. cbn [get_state] in H. cbn [no_rank0] in Hr.
-      apply andb_prop in Hr. destruct Hr as [Hrf Hr]. rewrite no_rank0_vals in Hr.
+    - intros id m c f l IHf IH st j st' H. cbn [get_state] in H.
       destruct (fresh st) as [did st0] eqn:Hf. destruct (fresh st0) as [ktid st0'] eqn:Hf2. inv_bind H.
       assert (Hn : names st0' = names st /\ d_late st0' = d_late st)
         by (unfold fresh in Hf, Hf2; injection Hf as <- <-; injection Hf2 as <- <-; split; reflexivity).
       destruct Hn as [Hn Hl0]. intros Hlate.
-      destruct (IHf Hrf _ _ _ E2 Hlate) as [L1 Hnf].
-      destruct (content_refs l IH Hr [] st0' _ _ E1 L1) as [L0 [refs0 [Hfr Hnx]]]. split; [rewrite <- Hl0; exact L0|].
+      destruct (IHf _ _ _ E2 Hlate) as [L1 Hnf].
+      destruct (content_refs l IH [] st0' _ _ E1 L1) as [L0 [refs0 [Hfr Hnx]]]. split; [rewrite <- Hl0; exact L0|].
       refs. unfold dict_state. rewrite file_refs_state. cbn [flat_map]. rewrite ?frf_nofile by reflexivity. rewrite file_refs_obj, Hfr. cbn [flat_map app].
       unfold list_state. rewrite file_refs_state. cbn [flat_map]. rewrite frf_nofile by reflexivity. rewrite file_refs_arr, (kts_refs _ _ E0). cbn [app].
       rewrite !app_nil_r. destruct (root_fields _ _ _ _ _ E2) as [kvf [Hjf _]]. subst j0.
       intros n. rewrite (Hnf n), (Hnx n), Hn, in_app_iff. tauto.
-    - intros id m c sh l IH Hr st j st' H. cbn [get_state] in H. cbn [no_rank0] in Hr.
-      destruct sh as [|d0 sh0]; [discriminate Hr|]. rewrite no_rank0_all in Hr.
-      destruct (tolist_state _ _ _) as [[[ser cs'] st1]|] eqn:E0; [|discriminate]. cbn [bind] in H.
-      destruct (tolist_list_state _ _ _ _ _ _ _ E0) as [items [lid ->]].
-      change (jindex (list_state items lid) (K "content")) with (Ok (A:=json) (JArr items)) in H. cbn [bind] in H.
-      destruct (shape_state (d0 :: sh0) st1) as [shj st2] eqn:E1. injection H as <- <-.
+    - intros id m c sh l IH st j st' H. cbn [get_state] in H.
+      destruct (shape_okb sh (length l)); [|discriminate H].
+      destruct (fresh st) as [lid st0] eqn:Hf0.
+      assert (Hn0 : names st0 = names st /\ d_late st0 = d_late st) by (unfold fresh in Hf0; injection Hf0 as <- <-; split; reflexivity).
+      destruct Hn0 as [Hn0 Hl0].
+      destruct (run_all _ st0) as [[items st1]|] eqn:E0; [|discriminate H]. cbn [bind] in H.
+      destruct (shape_state sh st1) as [shj st2] eqn:E1. injection H as <- <-.
       assert (Hcl : Forall Mcx (map (fun x s0 => get_state E x s0) l)).
-      { clear -IH Hr. rewrite forallb_forall in Hr. rewrite Forall_forall in IH. apply Forall_forall. intros c0 Hc0.
+      { clear -IH. rewrite Forall_forall in IH. apply Forall_forall. intros c0 Hc0.
         apply in_map_iff in Hc0. destruct Hc0 as [x [<- Hx]]. intros st j st' H. eapply IH; eauto. }
-      destruct (tolist_refs _ _ _ _ _ _ Hcl E0) as [Hn1 _]. rewrite list_state_refs in Hn1.
+      pose proof (run_all_refs _ (content_refs_clos (map Z.to_nat sh) _ Hcl) _ _ _ E0) as Hn1.
       destruct (shape_state_refs _ _ _ _ E1) as [Hs1 [Hs2 Hs3]].
       rewrite file_refs_state. cbn [flat_map]. rewrite ?frf_nofile by reflexivity. rewrite file_refs_arr, Hs1. cbn [file_refs app]. rewrite app_nil_r.
-      intros Hlate. rewrite Hs3 in Hlate. destruct (Hn1 Hlate) as [L0 N0]. split; [exact L0|].
-      intros n. unfold names in *. rewrite Hs2. exact (N0 n).
-    - intros id m c d k IHd IHk Hr st j st' H. cbn [get_state] in H. cbn [no_rank0] in Hr.
-      apply andb_prop in Hr. destruct Hr. inv_bind H. refs.
+      intros Hlate. rewrite Hs3 in Hlate. destruct (Hn1 Hlate) as [L0 N0]. split; [rewrite <- Hl0; exact L0|].
+      intros n. unfold names in *. rewrite Hs2, <- Hn0. exact (N0 n).
+    - intros id m c d k IHd IHk st j st' H. cbn [get_state] in H.
+      inv_bind H. refs.
       destruct (root_fields _ _ _ _ _ E0) as [kv0 [-> _]]. destruct (root_fields _ _ _ _ _ E1) as [kv1 [-> _]].
       rewrite ?frf_nofile by reflexivity. rewrite ?app_nil_r. eapply RX_trans; [eapply IHd; eauto|eapply IHk; eauto].
-    - intros id m c x IHx Hr st j st' H. cbn [get_state] in H. cbn [no_rank0] in Hr. inv_bind H. refs. eapply IHx; eauto.
-    - intros id m c x y IHx IHy Hr st j st' H. cbn [get_state] in H. cbn [no_rank0] in Hr.
-      apply andb_prop in Hr. destruct Hr. inv_bind H. refs.
+    - intros id m c x IHx st j st' H. cbn [get_state] in H. inv_bind H. refs. eapply IHx; eauto.
+    - intros id m c x y IHx IHy st j st' H. cbn [get_state] in H.
+      inv_bind H. refs.
       rewrite ?frf_nofile by reflexivity. rewrite ?app_nil_r. eapply RX_trans; [eapply IHx; eauto|eapply IHy; eauto].
-    - intros id m c f a k n IHf IHa IHk IHn Hr st j st' H. cbn [get_state] in H. cbn [no_rank0] in Hr.
-      apply andb_prop in Hr. destruct Hr as [Hr Hr4]. apply andb_prop in Hr. destruct Hr as [Hr Hr3]. apply andb_prop in Hr. destruct Hr as [Hr1 Hr2].
+    - intros id m c f a k n IHf IHa IHk IHn st j st' H. cbn [get_state] in H.
       inv_bind H. refs. rewrite ?frf_nofile by reflexivity. rewrite ?app_nil_r.
       eapply RX_trans; [eapply IHf; eauto|]. eapply RX_trans; [eapply IHa; eauto|]. eapply RX_trans; [eapply IHk; eauto|eapply IHn; eauto].
-    - intros id c a IHa Hr st j st' H. cbn [get_state] in H. cbn [no_rank0] in Hr. inv_bind H. refs. eapply IHa; eauto.
-    - intros id m f x IHx Hr st j st' H. cbn [get_state] in H. cbn [no_rank0] in Hr. inv_bind H. refs.
+    - intros id c a IHa st j st' H. cbn [get_state] in H. inv_bind H. refs. eapply IHa; eauto.
+    - intros id m f x IHx st j st' H. cbn [get_state] in H. inv_bind H. refs.
       rewrite ?frf_nofile by reflexivity. cbn [file_refs app]. rewrite ?app_nil_r. eapply IHx; eauto.
-    - intros id m c hk h ok x _ IHx Hr st j st' H. cbn [get_state] in H. cbn [no_rank0] in Hr.
+    - intros id m c hk h ok x _ IHx st j st' H. cbn [get_state] in H.
       destruct ok; inv_bind H; refs; try (eapply IHx; eauto). same.
   Qed.
 End Refs.
 
 (* the members of the archive are exactly the files its node-states refer to *)
-Theorem dumps_members_exact D base v a : dumps_model D base v = Ok a -> no_rank0 v = true ->
+Theorem dumps_members_exact D base v a : dumps_model D base v = Ok a ->
   forall n, In n (map fst (a_members a)) <-> In n (file_refs (a_schema a)).
 Proof.
-  unfold dumps_model. intros H Hr. destruct (get_state D v (init_dst base)) as [[j st]|] eqn:E0; [|discriminate]. cbn [bind] in H.
-  pose proof (get_state_refs D v Hr _ _ _ E0) as Hn. destruct j; try discriminate. destruct (d_late st) eqn:Hlate; [discriminate|]. injection H as <-.
+  unfold dumps_model. intros H. destruct (get_state D v (init_dst base)) as [[j st]|] eqn:E0; [|discriminate]. cbn [bind] in H.
+  pose proof (get_state_refs D v _ _ _ E0) as Hn. destruct j; try discriminate. destruct (d_late st) eqn:Hlate; [discriminate|]. injection H as <-.
   destruct (Hn Hlate) as [_ Hn'].
   cbn [a_members a_schema]. intros n. rewrite (Hn' n). unfold names. cbn [init_dst d_members map In].
   rewrite !file_refs_obj, flat_map_app. cbn [flat_map]. rewrite ?frf_nofile by reflexivity. cbn [file_refs app]. rewrite app_nil_r. tauto.
